@@ -324,12 +324,34 @@ class Exec:
         self.steps.append({'t': self.now, 'a': a})
         self._picks = a.get('sched') or []
         self._pick_i = 0
+        self._det = self.annotate(a)
         op = a['op']
         getattr(self, 'op_' + op)(a)
         if a.get('settle', True) and op not in ('advance',):
             self.settle()
             self.quiet_points.append(len(self.actions))
         self.collect()
+
+    def annotate(self, a):
+        """Before a client unit is issued: is its session live and the world quiet?"""
+        if a['op'] not in ('post', 'ws_send', 'pong', 'poll'):
+            return None
+        s = self.sess(a.get('s'))
+        if s is None or self.sid_of(s) is None:
+            return None
+        n = len(self.actions) - 1           # actions before this one
+        quiet = n == 0 or n in self.quiet_points
+        evs = self.events_for(s)
+        live = any(e == 'connect' for _, e, _ in evs) and \
+            not any(e == 'disconnect' for _, e, _ in evs) and s.expect_accept
+        if a['op'] == 'ws_send':
+            conn = self._sock(s, a.get('sock', 'main'))
+            live = live and conn is not None and conn.accepted and not conn.done and \
+                not conn.peer_closed and not conn.failed and not conn.server_closed
+        elif a['op'] == 'post':
+            live = live and s.main_ws is None and s.kind == 'polling'
+        return {'live': bool(live and quiet), 'settled_after': bool(a.get('settle', True)),
+                'other_causes': bool(s.causes) or s.vanished}
 
     def op_open(self, a):
         s = Sess(len(self.sessions), a.get('transport', 'polling'))
@@ -379,7 +401,8 @@ class Exec:
             declared = max(0, len(body) + a['declared_delta'])
         r = self._post_raw(s, body, declared)
         s.client_sent.append({'t': self.now, 'via': 'post', 'conn': None, 'pkts': pkts,
-                              'raw': raw, 'req': r, 'declared': declared, 'size': len(body)})
+                              'raw': raw, 'req': r, 'declared': declared, 'size': len(body),
+                              'det': self._det, 'step': len(self.actions)})
         if pkts and any(t == 3 for t, _ in pkts):
             s.ping_pending = False
             s.pongs.append(self.now)
@@ -414,7 +437,8 @@ class Exec:
         pt, payload, _ = parse_frame(frame) if frame not in ('', b'') else (None, frame, frame)
         s.client_sent.append({'t': self.now, 'via': 'ws', 'conn': conn, 'frame': frame,
                               'pkts': [(pt, payload)], 'raw': frame, 'req': None,
-                              'size': len(frame)})
+                              'size': len(frame), 'det': self._det,
+                              'step': len(self.actions)})
         if pt == 3 and conn is s.main_ws:
             s.ping_pending = False
             s.pongs.append(self.now)
